@@ -798,7 +798,12 @@ static void junk(World& w, unsigned n, unsigned salt)
 {
    // unrelated allocations: they move every later node to a different address and grow the unification tables
    auto& lex = w.lex;
+   // first of all a word whose LENGTH is an ASCII digit (48..57): what lies right behind the word interned just before it in the string
+   // arena is then a byte that text-scanning code would take for a digit; further words of many lengths (their length bytes are letters,
+   // blanks, quotes, backslashes, control bytes ...)
+   lex.get_string(std::u8string(48 + (salt * 7) % 10, u8'j'));
    for (unsigned i = 0; i < n; ++i) {
+      lex.get_string(std::u8string(1 + (salt * 31 + i * 17) % 126, u8'J'));
       std::string s = "junk_" + std::to_string(salt) + "_" + std::to_string(i);
       auto& id = lex.get_identifier(std::u8string(reinterpret_cast<const char8_t*>(s.data()), s.size()));
       auto& t = lex.get_pointer(lex.get_as_type(*lex.make_id_expr(id)));
@@ -1022,10 +1027,71 @@ static int opt_int(const std::vector<std::string>& ws, const std::string& key, i
    return dflt;
 }
 
+// A program built and printed DURING STATIC INITIALISATION of this translation unit (linked before the library, so its initialisers
+// run first), from the construction script named by $PRINTPROBE_EARLY; the op `early` prints the same graph again from main() with
+// fresh printers: the texts must be the same (nothing the printer relies on may still be uninitialised at that time).
+namespace {
+   void apply_construction(World& w, const std::vector<std::string>& ws, unsigned& salt)
+   {
+      Builder b(w);
+      if (ws.at(1) == "junk") junk(w, std::stoul(ws.at(2)), ++salt);
+      else if (ws.at(1) == "scramble") scramble(std::stoul(ws.at(2)));
+      else if (ws.at(1) == "set") { b.a.assign(ws.begin() + 3, ws.end()); b.set(ws.at(2)); }
+      else {
+         if (ws.size() < 4 or ws[2] != "=") throw Bad("syntax");
+         b.a.assign(ws.begin() + 4, ws.end());
+         w.objs[ws[1]] = b.build(ws[3]);
+      }
+   }
+
+   struct Early_print {
+      std::unique_ptr<World> world;
+      struct Item { std::string root, route; int loc; std::string line; };
+      std::vector<Item> items;
+      std::string failure;
+      Early_print()
+      {
+         const char* path = std::getenv("PRINTPROBE_EARLY");
+         if (path == nullptr) return;
+         std::ifstream in(path);
+         world = std::make_unique<World>();
+         unsigned salt = 0;
+         std::string line;
+         try {
+            while (std::getline(in, line)) {
+               auto ws = split(line);
+               if (ws.empty()) continue;
+               if (ws[0] == "root") {
+                  for (int loc : { 0, 1 }) {
+                     auto& o = world->objs.at(ws.at(1));
+                     auto r = run_print(world->lex, loc, 10, -1, 0, [&](Printer& pp) { print_route(pp, ws.at(2), *o.expr); });
+                     items.push_back({ ws.at(1), ws.at(2), loc, r.line });
+                  }
+               }
+               else apply_construction(*world, ws, salt);
+            }
+         }
+         catch (const std::exception& e) { failure = std::string("exception during static initialisation: ") + e.what(); }
+      }
+   };
+   Early_print early_print;
+}
+
 int main(int argc, char** argv)
 {
    std::ios::sync_with_stdio(false);
    if (argc > 1 and (std::string(argv[1]) == "sweep" or std::string(argv[1]) == "cycles")) return sweep_main(argc, argv);
+   if (argc > 1 and std::string(argv[1]) == "early") {
+      std::cout << "early items=" << early_print.items.size() << (early_print.failure.empty() ? "" : " failure") << "\n";
+      if (not early_print.failure.empty()) std::cout << "early-failure " << early_print.failure << "\n";
+      for (auto& it : early_print.items) {
+         auto& o = early_print.world->objs.at(it.root);
+         auto r = run_print(early_print.world->lex, it.loc, 10, -1, 0, [&](Printer& pp) { print_route(pp, it.route, *o.expr); });
+         std::cout << "early " << it.root << ' ' << it.route << " loc=" << it.loc << " same=" << (r.line == it.line ? 1 : 0) << "\n";
+         if (r.line != it.line) std::cout << "early-then " << it.line << "\nearly-now  " << r.line << "\n";
+      }
+      return 0;
+   }
    std::map<std::string, std::unique_ptr<World>> worlds;
    std::string line;
    unsigned salt = 0;
